@@ -122,6 +122,7 @@ def register_replay(reg):
             params=dict(self=C.Obj(f"{M}:Simulation"), dist=C.Const(None), values=C.Const(None)),
             setup=setup_rec,
             post=post_rec,
+            replay=replay_record,
             properties=("C18",),
         )
     )
@@ -175,3 +176,21 @@ def register_replay(reg):
             properties=("C18",),
         )
     )
+
+
+def replay_record(inputs, clause):
+    """Real Simulation.recordSampledValue with a recording in progress, while replaying and while not."""
+    for replaying in (False, True):
+        sim = _sim(0)
+        sim._replayOut = object()
+        sim.replaying = replaying
+        calls = []
+
+        class Dist:
+            def serializeValue(self, values, ser):
+                calls.append((values, ser))
+
+        sim.recordSampledValue(Dist(), "values")
+        if len(calls) != 1 or calls[0][1] is not sim._replayOut:
+            return f"recordSampledValue wrote {len(calls)} values to the recording (replaying={replaying}, recording on): a random value drawn during the run is missing from the saved replay"
+    return None
